@@ -332,8 +332,10 @@ class _Impl:
         res: list[str] = rec["results"]
         for act in [a for a in script.split(",") if a]:
             if act in ("o", "O"):
-                serial = w.next_serial
+                serial = w.next_serial  # one serial per open *attempt*, so a half-done open is still identifiable
+                w.next_serial += 1
                 st = State(serial)
+                w.states[serial] = st
                 ttl = None if ttl_ms < 0 else ttl_ms / 1000.0
                 try:
                     ctx.open_session(st, ttl)
@@ -343,8 +345,6 @@ class _Impl:
                         raise
                     res.append(f"O!{type(e).__name__}")
                     continue
-                w.next_serial += 1
-                w.states[serial] = st
                 res.append(f"{act}={serial}")
             elif act == "c":
                 ctx.close_session()
@@ -354,6 +354,9 @@ class _Impl:
                 res.append("r=" + (str(s.serial) if isinstance(s, State) else "-" if s is None else "?"))
             elif act == "n":
                 res.append("n")
+            elif act == "x":
+                res.append("x")
+                raise ValueError("scripted failure")
             else:
                 raise ValueError(f"bad action {act!r}")
         return ";".join(res)
